@@ -207,6 +207,7 @@ class Buffer(gpp.UGenParameter, gpp.NodeParameter):
         individually or reusing them can result in allocation errors.
         '''
 
+        server = server or srv.Server.default
         if bufnum is None:
             buf_base = server._next_buffer_number(buffers)
         else:
